@@ -20,6 +20,9 @@ def run(tier):
     rnd = random.Random(common.seed())
     r = common.tlc("Driver", cfg="MC_Driver.cfg", workers=4, timeout=300, name="mcdriver")
     common.tlc_require_ok(r, "MC_Driver")
+    # unbounded: any number of rows (DriverProof.tla, an inductive invariant checked by the TLA+ proof system)
+    n_obl, _ = common.tlapm("DriverProof", deps=("Driver",), timeout=600, threads=4)
+    v.cov["tlaps_obligations_proved"] = n_obl
     v.add_tlc(r)
     h = common.build_harness()
     d = common.sub("c19")
